@@ -152,6 +152,14 @@ def python_level(task: dict) -> dict:
         ds = Dataset(tmp / "d")
         ref = readers.read_ids(ds, "numpy", "train", repeat=False, shuffle=0)
         base_threads = len(os.listdir("/proc/self/task"))
+        if task.get("pause") and nshards >= 3:
+            # a consumer that is busy for several seconds after its second example (more shards than reader threads)
+            got = readers.read_ids(ds, "rust", "train", repeat=False, shuffle=0, file_parallelism=2,
+                                   stall=(2, task["pause"]))
+            out["runs"] += 1
+            if got != ref:
+                out["problems"].append(("sequence-after-pause", f"{comp or 'none'} {nshards} shards, 2 threads, consumer "
+                                        f"pauses {task['pause']} s after 2 examples: rust yields {got}, python {ref}"))
         for T in task["threads"]:
             got = readers.read_ids(ds, "rust", "train", repeat=False, shuffle=0, file_parallelism=T)
             out["runs"] += 1
@@ -324,6 +332,26 @@ def run(ctx: Ctx) -> None:
             if n_plans % 60 == 1:
                 ctx.sample({"kind": "completion order imposed on the real parallel_map", "T": T, "N": N,
                             "panics": panics, "drop_after": drop, "steps": steps, "log": [" ".join(l) for l in log]})
+    # the time dimension, sampled: the consumer is busy elsewhere for a while in the middle of a pass (a training step,
+    # a checkpoint) while every worker that has delivered sits idle; nothing may be lost or reordered because of it.
+    # (The specification has no clock: a worker may wait for its next task for ever. 6 s in the quick tier, 6 s and
+    # 35 s in the thorough tier - the two pauses run concurrently with the proof above.)
+    import concurrent.futures as _cf
+    pauses = [(2, 5, 1, 6000), (3, 7, 3, 6000)] + ([] if q else [(2, 6, 2, 35000), (4, 9, 5, 35000)])
+
+    def paused(T_, N_, after, ms):
+        steps_ = ["openall"] + ["next"] * after + [f"pause {ms}"] + ["next"] * (N_ - after + 1)
+        return steps_, run_harness(T_, N_, steps_, timeout=90 + ms / 1000)
+
+    with _cf.ThreadPoolExecutor(max_workers=4) as ex_:
+        for (T_, N_, after, ms), (steps_, (rc_, log_)) in zip(pauses, ex_.map(lambda a: paused(*a), pauses)):
+            n_plans += 1
+            for kind, what in judge_log(log_, T_, N_, [], N_ + 1):
+                ctx.violation(f"C15|kind={kind}|panic=no|paused=yes",
+                              f"parallel_map T={T_} N={N_}, consumer pauses {ms / 1000:.0f} s after {after} results: "
+                              f"{what}", {"T": T_, "N": N_, "steps": steps_, "panics": [], "drop": N_ + 1,
+                                          "log": [" ".join(l) for l in log_]})
+    ctx.cov["plans_with_a_pausing_consumer"] = len(pauses)
     proof.result()
     prover.shutdown()
     ctx.cov["plans_imposed_on_real_parallel_map"] = n_plans
@@ -371,6 +399,10 @@ def run(ctx: Ctx) -> None:
             tasks.append({"compression": comp, "nshards": nsh, "eps": 1 + (i + ci) % 3,
                           "threads": [1, 2, 3, 8] if q else [1, 2, 3, 4, 5, 8],
                           "prefixes": [1, 2] if q else [1, 2, 3, 5]})
+    # two datasets (6 shards, uncompressed and LZ4) are also read by a consumer that pauses for 6 s (T: 6 s and 35 s)
+    for t in tasks:
+        if t["nshards"] == 6 and t["compression"] in ("", "LZ4", "GZIP"):
+            t["pause"] = 6 if (q or t["compression"] != "") else 35
     try:
         outs = H.run_histories(tasks, fn=python_level)
     finally:
